@@ -130,6 +130,7 @@ def gen_case(rng):
             used.add(k)
             cards.insert(rng.randint(0, len(cards)), rng.choice([[k, "int", 0], [k, "float", 0.0], [k, "int", 7], [k, "str", "mine"]]))
     c["cards"] = cards
+    c["rerecord"] = rng.random() < 0.3
     return c
 
 
@@ -248,6 +249,17 @@ def oracle(c, r, tpl):
             bad("raw-params", "get_raw_params %s disagree with the configuration" % rp)
         if abs(rp["fch1"] - c["fch1"]) > 1e-6 * max(1.0, abs(c["fch1"])) or rp["ascending"] != c["ascending"]:
             bad("raw-params", "get_raw_params fch1/orientation %s/%s, antenna %s/%s" % (rp["fch1"], rp["ascending"], c["fch1"], c["ascending"]))
+    rr = r.get("rerecord")
+    if rr is not None:
+        if "error" in rr:
+            bad("rerecord-raises", "recording the files again through from_data (two blocks more asked for than they hold) raised %s" % rr["error"])
+        elif rr["n_out"] != rr["n_in"]:
+            bad("rerecord-blocks", "re-recording %d input blocks with %d requested wrote %d" % (rr["n_in"], rr["n_in"] + 2, rr["n_out"]))
+        elif rr["scanlen"]:
+            want = rr["n_out"] * rr["spb"] * rr["tbin"][0]
+            if abs(rr["scanlen"][0] - want) > 1e-9 * want or abs(rr["obs_length"] - want) > 1e-9 * want:
+                bad("rerecord-scanlen", "re-recording (%d blocks on disk, %d asked for): SCANLEN %r / obs_length %r, but blocks x samples per block x TBIN = %r"
+                    % (rr["n_out"], rr["n_in"] + 2, rr["scanlen"][0], rr["obs_length"], want))
     dio_card = r["struct"][0][0]["hdr"].get("DIRECTIO")
     blimpy_applicable = dio_card is None or dio_card.replace("'", "").strip() in ("0", "1")   # blimpy only knows DIRECTIO == 1
     if any(k.startswith("END") for k in r["struct"][0][0]["hdr"]):
